@@ -624,6 +624,8 @@ def snapshot(s):
     for k, v in vars(s).items():
         if isinstance(v, np.ndarray):
             snap[k] = (id(v), v.shape, v.dtype.str, v.copy())
+        elif hasattr(v, 'toarray') and hasattr(v, 'shape'):      # scipy.sparse: by content
+            snap[k] = (id(v), v.shape, str(v.dtype), np.asarray(v.toarray()))
         else:
             snap[k] = (id(v) if not isinstance(v, (int, float, bool, str, type(None), np.generic)) else None, None, None, v)
     return snap
@@ -1269,6 +1271,334 @@ Eval vm_compute in (bad ok cases).
         ctx.discharged.append(ob)
 
 
+# ---------------------------------------------------------------- 2-D systems (Kronecker penalties)
+# kinds: 'P2D' PenalizedSystem2D((R, C)), 'W2D' WhittakerSystem2D((R, C), num_eigens=None),
+#        'S2D' PSpline2D(SplineBasis2D(...)) with R x C basis functions (reset through reset_penalty).
+# ops:   ('req2', lam, diff_order) with lam / diff_order an int or a list of ints (exception caught),
+#        ('diag2', w) add_diagonal(w) in place (what solve() does with the weights), 'rdiag' reset_diagonal().
+HEADER_2D = HEADER.replace('C11.PSplineSys.', 'C11.PSplineSys C11.Sys2D gen.GenBandEffects2D.')
+S2D_SHAPES = {(4, 5): ((3, 4), (2, 2)), (5, 4): ((4, 3), (2, 2)), (3, 4): ((3, 3), (1, 2)), (4, 4): ((2, 3), (3, 2)),
+              (5, 6): ((3, 5), (3, 2)), (6, 5): ((5, 4), (2, 2)), (3, 3): ((2, 3), (2, 1))}   # (R, C) -> (num_knots, degree)
+
+
+def pair2(v):
+    if isinstance(v, (list, tuple)):
+        return tuple(v) if len(v) == 2 else ((v[0], v[0]) if len(v) == 1 else None)
+    return (v, v)
+
+
+def req2_valid(R, C, r):
+    lam, d = pair2(r[1]), pair2(r[2])
+    return lam is not None and d is not None and min(lam) > 0 and min(d) > 0 and d[0] < R and d[1] < C
+
+
+def build2(kind, R, C, r):
+    from pybaselines.two_d import _whittaker_utils as wu
+    if kind == 'P2D':
+        return wu.PenalizedSystem2D((R, C), r[1], r[2])
+    if kind == 'W2D':
+        return wu.WhittakerSystem2D((R, C), r[1], r[2], num_eigens=None)
+    from pybaselines.two_d import _spline_utils as su2
+    knots, deg = S2D_SHAPES[(R, C)]
+    basis = su2.SplineBasis2D(np.linspace(-1, 1, 14), np.linspace(-1, 1, 17), num_knots=knots, spline_degree=deg)
+    ps = su2.PSpline2D(basis, r[1], r[2])
+    assert tuple(int(v) for v in ps._num_bases) == (R, C), ps._num_bases
+    return ps
+
+
+def observe2(s):
+    pen = np.asarray(s.penalty.toarray(), dtype=float)
+    return (int(s.diff_order[0]), int(s.diff_order[1]), as_int_rows(np.asarray(s.lam, dtype=float))[0],
+            as_int_rows(pen), as_int_rows(np.asarray(s.main_diagonal, dtype=float))[0])
+
+
+def ref2(R, C, lam, d):
+    Dr = np.diff(np.eye(R), d[0], axis=0)
+    Dc = np.diff(np.eye(C), d[1], axis=0)
+    return lam[0] * np.kron(Dr.T @ Dr, np.eye(C)) + lam[1] * np.kron(np.eye(R), Dc.T @ Dc)
+
+
+def apply_rop2(kind, s, op, events=None, k=None, R=None, C=None):
+    if op == 'rdiag':
+        s.reset_diagonal()
+    elif op[0] == 'diag2':
+        try:
+            s.add_diagonal(np.array(op[1], dtype=float) if len(op[1]) != 1 else float(op[1][0]))
+        except ValueError:
+            pass
+    else:
+        before = snapshot(s) if events is not None else None
+        try:
+            if kind == 'S2D':
+                s.reset_penalty(op[1], op[2])
+            else:
+                s.reset_diagonals(op[1], op[2])
+            res = 'ok'
+        except Exception as exc:  # noqa
+            res = type(exc).__name__
+        if events is not None:
+            valid = req2_valid(R, C, op)
+            if valid and res != 'ok':
+                events.append(('valid-request-raises', k, res))
+            elif not valid and res == 'ok':
+                events.append(('invalid-request-accepted', k, ''))
+            elif not valid:
+                if res != 'ValueError':
+                    events.append(('wrong-exception', k, res))
+                d = snapshot_diff(before, snapshot(s))
+                if d:
+                    events.append(('rejected-request-changes-state', k, ', '.join(d)))
+            else:
+                lam, dd = pair2(op[1]), pair2(op[2])
+                got = np.asarray(s.penalty.toarray(), dtype=float)
+                if got.shape != (R * C, R * C) or not np.array_equal(got, ref2(R, C, lam, dd)):
+                    events.append(('penalty-not-kron-DtD', k, f'lam={lam}, diff_order={dd}'))
+                elif kind != 'S2D':
+                    # a solve right after the request, against the dense Kronecker reference (integer weights >= 1:
+                    # the system is symmetric positive definite with smallest eigenvalue >= 1)
+                    w = 1.0 + (np.arange(R * C) % 3)
+                    y = np.cos(np.arange(R * C))
+                    try:
+                        x = np.asarray(s.solve(y, w)).ravel()
+                        s.reset_diagonal()
+                        want = np.linalg.solve(ref2(R, C, lam, dd) + np.diag(w), w * y)
+                        if x.shape != want.shape or not np.allclose(x, want, rtol=1e-7, atol=1e-9):
+                            events.append(('solve-differs', k, f'max abs difference {np.abs(x - want).max():.3g}'))
+                    except Exception as exc:  # noqa
+                        events.append(('solve-raises', k, f'{type(exc).__name__}: {exc}'))
+
+
+def impl_rhistory2(kind, R, C, r0, ops, events=None):
+    try:
+        s = build2(kind, R, C, r0)
+    except ValueError:
+        return 'rejected'
+    for k, op in enumerate(ops):
+        apply_rop2(kind, s, op, events, k, R, C)
+    return observe2(s)
+
+
+EVENT_TEXT2 = dict(EVENT_TEXT)
+EVENT_TEXT2.update({
+    'penalty-not-kron-DtD': 'after the accepted request #{k} {op} the penalty is not lam_r*kron(Dr.T@Dr, I) + lam_c*kron(I, Dc.T@Dc) ({detail})',
+    'solve-differs': 'after the accepted request #{k} {op} solve() differs from the dense Kronecker reference ({detail})',
+    'solve-raises': 'after the accepted request #{k} {op} solve() raised {detail}',
+})
+
+
+def rhistory2_error(kind, R, C, r0, ops):
+    events = []
+    try:
+        got = impl_rhistory2(kind, R, C, r0, ops, events)
+    except Exception as exc:  # noqa
+        return 'history2d:raises', f'raised {type(exc).__name__}: {exc}'
+    if events:
+        ev, k, detail = events[0]
+        return ('reset2d:' if 'request' in ev or 'exception' in ev else 'history2d:') + ev, \
+            EVENT_TEXT2[ev].format(k=k, op=str(ops[k])[:120], detail=detail)
+    valid0 = req2_valid(R, C, r0)
+    if got == 'rejected':
+        return ('history2d:raises', 'valid constructor request raised ValueError') if valid0 else None
+    if not valid0:
+        return 'reset2d:invalid-request-accepted', f'the constructor accepted the invalid request {r0}'
+    idx = max((i for i, o in enumerate(ops) if o != 'rdiag' and o[0] == 'req2' and req2_valid(R, C, o)), default=-1)
+    last = ops[idx] if idx >= 0 else r0
+    tail = [o for o in ops[idx + 1:] if o == 'rdiag' or o[0] != 'req2']
+    want = impl_rhistory2(kind, R, C, last, tail)
+    if got != want:
+        names = ('diff_order[0]', 'diff_order[1]', 'lam', 'penalty', 'main_diagonal')
+        return 'history2d:differs-from-fresh', (f'differs from the system built directly with the last accepted request {last} in '
+                                                + ', '.join(n for n, x, y in zip(names, got, want) if x != y))
+    return None
+
+
+ORDERS_2D = [1, 2, [1, 2], [2, 1], [2, 3], [3, 2], [1, 3], [3, 3]]
+INVALID_2D = [(0, 'same'), (-2, 'same'), ([1, 2, 3], 'same'), ([], 'same'), ('same', 0), ('same', -1), ('same', [1, 2, 3]),
+              ('same', [0, 1]), ('same', 'rows-too-large'), ('same', 'cols-too-large'), ('same', 'both-too-large'),
+              (0, 'other'), ([3, 0], 'other'), ('same', [2, 0])]
+
+
+def fixed_rhistories2():
+    """ENUMERATED grid: every ordered pair of difference orders (one-axis changes, both axes, none) with a lam
+    change and a lam-only reset behind it, and every kind of rejected request between two accepted ones"""
+    out = []
+    # the histories reported to the lead at /repo 4a1c1fc (diff_order / lam stored before diff_penalty_matrix could raise)
+    for kind in ('P2D', 'W2D', 'S2D'):
+        for badreq in (('req2', -1, 3), ('req2', 0, [2, 3]), ('req2', 2, [2, 6])):
+            out.append((kind, 5, 6, ('req2', 1, 2), [badreq]))
+            out.append((kind, 5, 6, ('req2', 1, 2), [badreq, ('req2', 3, [2, 3])]))
+    for kind, (R, C) in (('P2D', (4, 5)), ('W2D', (5, 4)), ('S2D', (4, 5))):
+        for a in ORDERS_2D:
+            for b in ORDERS_2D:
+                out.append((kind, R, C, ('req2', 1, a), [('req2', [2, 3], b), ('req2', 5, b)]))
+        for i, (lam, d) in enumerate(INVALID_2D):
+            a, b = ORDERS_2D[i % len(ORDERS_2D)], ORDERS_2D[(i + 3) % len(ORDERS_2D)]
+            big = {'rows-too-large': [R, 1], 'cols-too-large': [1, C], 'both-too-large': R + C}
+            dd = big.get(d, a if d == 'same' else (b if d == 'other' else d)) if isinstance(d, str) else d
+            ll = 3 if lam == 'same' else lam
+            out.append((kind, R, C, ('req2', 1, a), [('req2', ll, dd), ('diag2', [2]), ('req2', ll, dd), ('req2', [2, 1], b)]))
+            out.append((kind, R, C, ('req2', 1, a), [('req2', [1, 4], b), ('req2', ll, dd)]))
+    return out
+
+
+def gen_rhistory2(rng):
+    kind = rng.choice(['P2D', 'P2D', 'W2D', 'S2D'])
+    R, C = rng.choice(sorted(S2D_SHAPES))
+
+    def order(cur=None):
+        hi = (min(3, R - 1), min(3, C - 1))
+        if cur is not None and rng.random() < 0.6:           # change exactly one axis
+            c = list(pair2(cur))
+            ax = rng.randint(0, 1)
+            c[ax] = rng.choice([x for x in range(1, hi[ax] + 1) if x != c[ax]] or [c[ax]])
+            return c
+        d = [rng.randint(1, hi[0]), rng.randint(1, hi[1])]
+        return d[0] if d[0] == d[1] and rng.random() < 0.5 else d
+
+    def lamv():
+        return rng.choice([1, 2, 5, [1, 3], [4, 1], [2, 2]])
+
+    def bad(cur):
+        lam, d = lamv(), order(cur)
+        k = rng.choice(['lam0', 'lamneg', 'lamlen', 'd0', 'dlen', 'dbig0', 'dbig1', 'lam0+d'])
+        if k.startswith('lam0'):
+            lam = rng.choice([0, [2, 0], [0, 1]])
+        if k == 'lamneg':
+            lam = -rng.choice([1, 4])
+        if k == 'lamlen':
+            lam = [1, 2, 3]
+        if k == 'd0':
+            d = rng.choice([0, [0, 1], [2, -1]])
+        if k == 'dlen':
+            d = [1, 1, 1]
+        if k == 'dbig0':
+            d = [R + rng.choice([0, 1]), pair2(d)[1]]
+        if k == 'dbig1':
+            d = [pair2(d)[0], C + rng.choice([0, 2])]
+        return ('req2', lam, d)
+    cur = order()
+    r0 = ('req2', lamv(), cur)
+    ops = []
+    p_rej = rng.choice([0.0, 0.3, 0.5])
+    for _ in range(rng.randint(1, 6)):
+        u = rng.random()
+        if u < 0.15:
+            n = R * C
+            ops.append(('diag2', [rng.randint(1, 9) for _ in range(n if rng.random() < 0.7 else (1 if rng.random() < 0.6 else n + 1))]))
+        elif u < 0.2:
+            ops.append('rdiag')
+        elif rng.random() < p_rej:
+            ops.append(bad(cur))
+        else:
+            same = rng.random() < 0.25                         # lam-only reset
+            cur = cur if same else order(cur)
+            ops.append(('req2', lamv(), cur))
+    return kind, R, C, r0, ops
+
+
+def one_axis_changes(R, C, r0, ops):
+    if not req2_valid(R, C, r0):
+        return 0
+    cur, n = pair2(r0[2]), 0
+    for o in ops:
+        if o != 'rdiag' and o[0] == 'req2' and req2_valid(R, C, o):
+            new = pair2(o[2])
+            n += (new[0] != cur[0]) != (new[1] != cur[1])
+            cur = new
+    return n
+
+
+def coq_zl(v):
+    return zlist(list(v) if isinstance(v, (list, tuple)) else [v])
+
+
+def coq_rop2(o):
+    if o == 'rdiag':
+        return 'R2ResetDiag'
+    if o[0] == 'diag2':
+        return f'R2AddDiag {zlist(o[1])}'
+    return f'R2Req {{| r_lam := {coq_zl(o[1])}; r_d := {coq_zl(o[2])} |}}'
+
+
+def systems2d(ctx, n_random):
+    """correspondence (model on the extracted order inside Coq vs real objects) AND direct oracle on the same
+    enumerated + random histories of the 2-D systems"""
+    rng = ctx.rng
+    cases = fixed_rhistories2() + [gen_rhistory2(rng) for _ in range(n_random)]
+    lits = []
+    found = 0
+    for i, (kind, R, C, r0, ops) in enumerate(cases):
+        case = {'kind': 'rhistory2d', 'system': kind, 'R': R, 'C': C, 'r0': r0, 'ops': ops}
+        ctx.case(('rhist2', kind, R, C, r0, repr(ops)), nontrivial=one_axis_changes(R, C, r0, ops) > 0 or
+                 any(o != 'rdiag' and o[0] == 'req2' and not req2_valid(R, C, o) for o in ops),
+                 kind=f'history2d:{kind}' + (':one-axis-change' if one_axis_changes(R, C, r0, ops) else ''))
+        e = rhistory2_error(kind, R, C, r0, ops)
+        if e:
+            small = list(ops)
+            changed = True
+            while changed:
+                changed = False
+                for j in range(len(small)):
+                    trial = small[:j] + small[j + 1:]
+                    e2 = rhistory2_error(kind, R, C, r0, trial)
+                    if e2 and e2[0] == e[0]:
+                        small, e, changed = trial, e2, True
+                        break
+            case['ops'] = small
+            names = {'P2D': 'PenalizedSystem2D', 'W2D': 'WhittakerSystem2D(num_eigens=None)', 'S2D': 'PSpline2D'}
+            ctx.fail(e[0], f'{names[kind]} with {R} x {C} basis functions, built with {r0}, then {small}: ' + e[1], case)
+            found += 1
+            continue
+        try:
+            got = impl_rhistory2(kind, R, C, r0, ops)
+        except Exception as exc:  # noqa
+            ctx.fail('history2d:raises', f'2-D history raised {type(exc).__name__}: {exc}', case)
+            continue
+        if i == 5:
+            ctx.sample(case)
+        if got == 'rejected':
+            exp = 'None'
+        else:
+            dr, dc, lam, pen, md = got
+            exp = f'(Some ({zl(dr)}, {zl(dc)}, {zl(lam[0])}, {zl(lam[1])}, {zlist2(pen)}, {zlist(md)}))'
+        ops_l = '[' + '; '.join(coq_rop2(o) for o in ops) + ']'
+        lits.append(f'({R}%nat, {C}%nat, {{| r_lam := {coq_zl(r0[1])}; r_d := {coq_zl(r0[2])} |}}, {ops_l}, {exp})')
+    ctx.traces += len(lits)
+    ob = 'correspondence:2-D-systems-histories(extracted effect order; PenalizedSystem2D, WhittakerSystem2D, PSpline2D)'
+    ctx.obligations.append(ob)
+    bad_any = False
+    per = 60
+    for k in range(0, len(lits), per):
+        sh = lits[k:k + per]
+        text = HEADER_2D + f"""
+Definition obs2_t : Type := Z * Z * Z * Z * list (list Z) * list Z.
+Definition obs2_eqb (a b : obs2_t) : bool :=
+  let '(a1, a2, a3, a4, a5, a6) := a in let '(b1, b2, b3, b4, b5, b6) := b in
+  (a1 =? b1) && (a2 =? b2) && (a3 =? b3) && (a4 =? b4) && zll_eqb a5 b5 && zl_eqb a6 b6.
+Definition cases : list (nat * nat * req2 * list rop2 * option obs2_t) := [
+{chr(10).join('  ' + l + (';' if i + 1 < len(sh) else '') for i, l in enumerate(sh))}
+].
+Definition ok (c : nat * nat * req2 * list rop2 * option obs2_t) : bool :=
+  let '(R, C, q0, ops, exp) := c in
+  match einit2 R C reset2d_effects q0, exp with
+  | Some s0, Some e => obs2_eqb (observe2 (rrun2 R C reset2d_effects s0 ops)) e
+  | None, None => true
+  | _, _ => false
+  end.
+Eval vm_compute in (bad ok cases).
+"""
+        vals = ctx.coq_eval(f'sys2d{k // per}', text)
+        if vals is None:
+            bad_any = True
+        elif not _clean(vals):
+            bad_any = True
+            ctx.broke(f'correspondence:sys2d-shard{k // per}',
+                      f'the 2-D model (extracted effect order) and the implementation disagree after a history: {vals}')
+    if not bad_any:
+        ctx.discharged.append(ob)
+    return found
+
+
 # ---------------------------------------------------------------- correspondence
 def correspondence(ctx):
     rng = ctx.rng
@@ -1615,7 +1945,12 @@ def run(ctx):
                 'at least one (lower,reversed) layout change or one reset after a use for histories; histories WITH REJECTED '
                 'requests (lam 0 / negative / a list, diff_order negative, combinations; at every position; asking for another '
                 'diff_order / lower / pentapy / reversed layout than the current one; also as the constructor call and as the last '
-                'operation) on PenalizedSystem and PSpline, non-trivial = a rejected request asked for a different layout')
+                'operation) on PenalizedSystem and PSpline, non-trivial = a rejected request asked for a different layout; 2-D systems '
+                '(PenalizedSystem2D, WhittakerSystem2D without eigendecomposition, PSpline2D): an ENUMERATED grid of all ordered pairs of 8 '
+                'per-axis difference orders (one-axis changes, both axes, none) with a lam change and a lam-only reset behind each, every kind of '
+                'rejected request (lam 0 / negative / wrong length, diff_order 0 / negative / wrong length / too large on rows, columns, both) '
+                'between accepted ones, plus random histories with in-place add_diagonal / reset_diagonal; non-trivial = a one-axis order change '
+                'or a rejected request')
     ctx.trusted += [
         'scipy.sparse D.T @ D + _sparse_to_banded (general path, d>3 or N<2d+1) is modelled as the specification; '
         'dense-checked against np.diff(np.eye(N),d) by the oracle for every generated size',
@@ -1629,21 +1964,27 @@ def run(ctx):
         'after every generated history; SetPen/Clobber are exercised with arrays of the current penalty shape only',
     ]
     ctx.gate()
-    ctx.translate(['GenBands', 'GenBandPurity', 'GenBandEffects'])
+    ctx.translate(['GenBands', 'GenBandPurity', 'GenBandEffects', 'GenBandEffects2D'])
     ok = ctx.build_props()
     correspondence(ctx)
     pspline_correspondence(ctx)
     rejected_correspondence(ctx)
+    found2d = systems2d(ctx, ctx.n(60, 600) * (1 if (ok and not ctx.broken) else 3))
     budget = 1 if (ok and not ctx.broken) else 4
     if ctx.tier == 'thorough':
         budget = max(budget, 3)
     found = search(ctx, budget)
-    ctx.note(f'direct oracle budget x{budget}: {found} failing inputs; general-path sizes in Coq limited to N<{ctx.n(16, 40)}; '
+    ctx.note(f'direct oracle budget x{budget}: {found} + {found2d} (2-D) failing inputs; general-path sizes in Coq limited to N<{ctx.n(16, 40)}; '
              'PenalizedSystem2D / WhittakerSystem2D (sparse 2-D penalties) are outside the banded model; freshness of results (no caching / sharing between calls) '
              'is a translator refusal rule (GenBandPurity) plus an oracle, not a theorem; requests with diff_order >= data size are '
              'outside the domain of C11 (N > d) and not generated: on the current source reset_diagonals(diff_order >= N, allow_lower=True) '
              'raises IndexError in _update_bands after every attribute was overwritten, and with allow_lower=False it is accepted with a '
-             '1-row zero penalty (reported to the lead as an observation, not a failure)')
+             '1-row zero penalty (reported to the lead as an observation, not a failure); 2-D systems: only the penalty / reset history of '
+             'PenalizedSystem2D, WhittakerSystem2D(num_eigens=None) and PSpline2D is modelled (sizes up to 6 x 6 basis functions, integer lam, '
+             'orders 1-3); the eigendecomposition mode of WhittakerSystem2D belongs to C20 and is not exercised here -- residual outside the '
+             'domain N > d, noted not failed: WhittakerSystem2D(..., num_eigens=...).reset_diagonals(lam=2, diff_order=(2, 9)) on 9 columns '
+             'raises a broadcasting ValueError after the assignments; add_penalty of the 2-D systems is pinned by the translator but not used '
+             'in the histories')
 
 
 def _decode_op(o):
@@ -1672,6 +2013,12 @@ def replay(rep):
         ops = [o if o == 'rev' else list(o) for o in case['ops']]
         e = rhistory_error(case['hp'], case['N'], list(case['r0']), ops)
         print('replay history with rejected requests:', (e[0] + ': ' + e[1]) if e else 'property holds on this input')
+        return 1 if e else 0
+    if kind == 'rhistory2d':
+        def dec(o):
+            return o if o == 'rdiag' else tuple(o)
+        e = rhistory2_error(case['system'], case['R'], case['C'], tuple(case['r0']), [dec(o) for o in case['ops']])
+        print('replay 2-D history:', (e[0] + ': ' + e[1]) if e else 'property holds on this input')
         return 1 if e else 0
     if kind == 'pspline-rhistory':
         ops = [o if o == 'rev' else list(o) for o in case['ops']]
